@@ -89,6 +89,23 @@ REACH = ["C09.executed-scenarios==matching-scenarios(call-log)", "C09.step-statu
          "C09.deselected-scenario-is-skipped", "C09.container-without-selected-scenario-is-skipped"]
 
 
+def h_wip_mode(sx):
+    """--wip restricts the run to @wip scenarios IN ADDITION to whatever --tags selects (the real Configuration builds the
+    expression; tag presence of the element is decided per path)."""
+    from behave.configuration import Configuration
+    k = sx.choice("tags_option", [0, 1, 2, 3])
+    k = k if isinstance(k, int) else k.concretize()
+    extra, f = [([], lambda a, b: True), (["--tags=@a"], lambda a, b: a), (["--tags=@a", "--tags=-@b"], lambda a, b: a and not b),
+                (["--tags=@a,@b"], lambda a, b: a or b)][k]
+    has = {t: bool(sx.bool("has:%s" % t)) for t in ("a", "b", "wip")}
+    tags = [t for t, v in has.items() if v]
+    cfg = Configuration(["--wip"] + extra, load_config=False)
+    got = bool(cfg.tag_expression.check(tags))
+    want = bool(has["wip"] and f(has["a"], has["b"]))
+    sx.check(got == want, "C09.wip-mode-adds-the-wip-restriction", detail={"args": ["--wip"] + extra, "tags": tags, "selected": got, "expected": want})
+    return {"args": extra, "tags": tags, "selected": got}
+
+
 def jobs(tier, seed):
     js = []
     shapes = {
@@ -107,6 +124,8 @@ def jobs(tier, seed):
             "2feat": [F([S(1)]), F([R([S(1)])])],
             "outline2": [F([S(1), O(2, [(2, []), (1, [])], tags=["p<x>"])], bg=1)],
         })
+    js.append(Job("wip-mode", "props.c09:h_wip_mode", {}, reach=["C09.wip-mode-adds-the-wip-restriction"], min_paths=16, cost=10,
+                  validate="all", closure=False))
     exprs = EXPRS_Q if tier == "quick" else EXPRS_T
     for sname, sh in shapes.items():
         # the three larger thorough-only shapes keep the quick outcome domain (sizing: 37 min -> about 12)
